@@ -98,7 +98,8 @@ def parse_tokens(t):
 
 
 def spec_call(lines):
-    return tie.run_tool([tie.DRIVER, "spec"], lines, "spec") if lines else {}
+    """id -> the text after the id ('slow' / 'ABORT' when the oracle itself did not come back)"""
+    return tie.run_spec(lines)
 
 
 def spec_match(cases):
@@ -194,7 +195,7 @@ def enum_asts(size, memo={}):
 
 
 def random_stream(ctx, count, feats=None, flagsets=None, alphabets=None, per_pattern=4, size=(1, 9),
-                  dialects=("xpath",), extra_inputs=()):
+                  dialects=("xpath",), extra_inputs=(), groups=0.0, brefs=0.0):
     rng = ctx.rng
     flagsets = flagsets or ["", "i", "m", "s", "im", "ms", "is", "ims"]
     alphabets = alphabets or ["ab", "abc", "ab\n", "aAb", "ab" + ASTRAL]
@@ -203,7 +204,13 @@ def random_stream(ctx, count, feats=None, flagsets=None, alphabets=None, per_pat
         d = rng.choice(dialects)
         al = rng.choice(alphabets)
         g = gen.Gen(rng, alphabet=al, dialect=d, feats=set(feats) if feats else None)
-        ast, pat = g.pattern(rng.randint(*size))
+        ast = g.re(rng.randint(*size))
+        if groups:
+            ast = gen.wrap_groups(rng, ast, groups)
+        if brefs and d == "xpath":
+            ast = gen.add_brefs(rng, ast, brefs)
+        ast = g.fix_brefs(ast)
+        pat = gen.pp(ast, d, rng)
         fl = rng.choice(flagsets) if d == "xpath" else rng.choice(["", "i", "s", "is"])
         for inp in gen.inputs_for(rng, al, per_pattern) + list(extra_inputs):
             out.append((d, fl, pat, inp, ast))
@@ -384,11 +391,11 @@ def slice_C03(ctx):
     tuples = []
     feats = {"grp", "alt", "quant", "reluctant", "cls", "nc"}
     for d, fl, pat, inp, ast in random_stream(ctx, ctx.n(12000, 120000), feats=feats, flagsets=["", "i", "s"],
-                                              alphabets=["ab", "abc", "aab"], per_pattern=5, size=(2, 9)):
+                                              alphabets=["ab", "abc", "aab"], per_pattern=5, size=(2, 9), groups=0.3):
         if gen.count_groups(ast) == 0:
             continue
         tuples.append((d, fl, pat, inp, "", "random"))
-    hand = ["(a)|b", "(a)?b", "(a*)b", "a(b?)c", "(a)(b)?(c)", "((a)(b))", "((a)|(b))c", "(a|(b))(c)", "()a", "(a|)b",
+    hand = ["(a|b)*b", "((a)|(b))+", "(a+)+b", "(a|ab)(c|bcd)(d*)", "(a*)*b", "(a)*ab", "(?:(a)|b)*", "(a|b)*?b", "(a)|b", "(a)?b", "(a*)b", "a(b?)c", "(a)(b)?(c)", "((a)(b))", "((a)|(b))c", "(a|(b))(c)", "()a", "(a|)b",
             "(a)(b)(c)(d)(e)(f)(g)(h)(i)(j)(k)", "((((a))))", "(a(b(c)))", "(a)b|a(c)", "(?:(a)|b)c", "(a)+", "(a|b)+c",
             "(a+)(b+)", "(a*?)(b)", "x(a)?y"]
     for p in hand:
@@ -958,7 +965,10 @@ def slice_C11(ctx):
                                        % (byid[ids[0]].pattern, byid[ids[0]].input), None,
                                        same_as_model(code, model, ids[k])))
                 break
-        if rs[4].get("M") == "1" and base.get("M") != "1":
+        # monotonicity is a consequence only where nothing is complemented: under i a negated class
+        # or a subtrahend excludes the case counterparts too
+        p0 = byid[ids[0]].pattern
+        if rs[4].get("M") == "1" and base.get("M") != "1" and "[^" not in p0 and "-[" not in p0:
             violations.append(viol(byid[ids[0]], "a match without i is a match with i", {"i": base.get("M"), "no-i": "1"},
                                    "flag i loses a match", None, same_as_model(code, model, ids[0])))
     for i in exact:
@@ -1558,7 +1568,7 @@ def slice_C19(ctx):
             for inp in gen.all_strings("ab", 4) + ["aA", "Aa", "abcdefghijj", "abcdefghija0", "a0", "aa0", "a1", "ab12", "aab", "aAa"]:
                 tuples.append(("xpath", fl, p, inp, "<$1>"))
     for d, fl, pat, inp, ast in random_stream(ctx, ctx.n(15000, 150000), feats={"grp", "bref", "alt", "quant", "reluctant", "nc", "cls"},
-                                              flagsets=["", "i"], alphabets=["ab", "aAb", "abc"], per_pattern=5, size=(3, 9)):
+                                              flagsets=["", "i"], alphabets=["ab", "aAb", "abc"], per_pattern=5, size=(2, 8), groups=0.3, brefs=0.35):
         if gen.has(ast, {"bref"}):
             tuples.append((d, fl, pat, inp, "<$1>"))
     cases = mk_cases(tuples, "mra")
